@@ -40,9 +40,9 @@ def check(c):
     c.cov["max_allocs_seen"] = res["stats"]["maxAllocs"]
     c.cov["samples"] = [e for e in read_ndjson(trace)[:2000:411]]
     c.cov["traces_validated_against_impl"] = 1
-    c.cov["rule"] = ("5 configuration kinds (allow-all, discrete, * headers anonymous, * headers credentialed, discrete credentialed + PNA) x "
+    c.cov["rule"] = ("9 configuration kinds (allow-all, discrete, * headers anonymous, * headers credentialed, discrete credentialed + PNA, 128 allowed names, 121-deep chain of nested allowed origins plain/credentialed, subdomain wildcard) x "
                      "debug on/off x OPTIONS/GET x {Origin, ACRM, ACRH} x value shapes (bytes, elements, empty elements, field lines, empty "
-                     "lines, leading OWS, allowed names followed by junk) x size ladder 1..10^4 (thorough: ..10^5 elements / 1 MiB); heap "
+                     "lines, leading OWS, allowed names followed by junk, allowed names padded in every tolerated way, allowed origins 1..120 labels deep) x size ladder 1..10^4 (thorough: ..10^5 elements / 1 MiB); heap "
                      "allocations per ServeHTTP measured with testing.AllocsPerRun on a reusable writer; TraceCost (TLC) requires per path "
                      "allocs(size) <= allocs(smallest) + 1 and <= 12; distinct_nontrivial = number of paths")
     c.assumptions += ["the decision is a MEASUREMENT; the specification supplies the path structure and the size-free budget (DESIGN.md section 9)",
